@@ -38,6 +38,8 @@ pub enum Step {
     AgentReturn(bool),
     /// External stop signal, issued with the readers in whatever state they are.
     StopAgent,
+    /// Nothing happens for this long (every reader draining): the agent must stop by itself.
+    FinalIdle(u64),
 }
 
 #[derive(Clone, Debug)]
@@ -72,6 +74,8 @@ pub enum Focus {
     Supply,
     /// C20: link bookkeeping, disconnections, prune, failures.
     Links,
+    /// C17 at the runtime level: finite inactivity timeout, idle gaps around it, no stalled parties.
+    Inactivity,
 }
 
 pub const CAPS: [usize; 7] = [2, 3, 5, 8, 16, 64, 4096];
@@ -141,6 +145,7 @@ impl<'a> Gen<'a> {
     pub fn config(&mut self, focus: Focus) -> Config {
         let remotes = match focus {
             Focus::Protocol | Focus::Links => self.rng.range(1, 4) as usize,
+            Focus::Inactivity => self.rng.range(1, 3) as usize,
             _ => self.rng.range(1, 3) as usize,
         };
         let kinds: Vec<LK> = match focus {
@@ -168,7 +173,7 @@ impl<'a> Gen<'a> {
                 }
                 k
             }
-            Focus::Protocol | Focus::Links => {
+            Focus::Protocol | Focus::Links | Focus::Inactivity => {
                 let n = self.rng.range(2, 4);
                 (0..n).map(|_| *self.rng.pick(&[LK::Value, LK::Map, LK::Supply, LK::Command, LK::Value, LK::Map])).collect()
             }
@@ -247,6 +252,13 @@ impl<'a> Gen<'a> {
                     None
                 }
             }
+            Focus::Inactivity => {
+                if self.rng.chance(1, 3) {
+                    Some(*self.rng.pick(&[3u64, 7, 30]))
+                } else {
+                    None
+                }
+            }
             _ => None,
         };
         Config {
@@ -258,7 +270,13 @@ impl<'a> Gen<'a> {
             jitter_per_mille: *self.rng.pick(&[0u64, 0, 100, 300, 600]),
             agent_jitter_per_mille: *self.rng.pick(&[0u64, 0, 0, 200, 500]),
             prune_ms,
-            inactive_ms: if focus == Focus::Protocol && self.rng.chance(1, 8) { Some(*self.rng.pick(&[15u64, 40])) } else { None },
+            inactive_ms: if focus == Focus::Inactivity {
+                Some(*self.rng.pick(&[6u64, 12, 25]))
+            } else if focus == Focus::Protocol && self.rng.chance(1, 8) {
+                Some(*self.rng.pick(&[15u64, 40]))
+            } else {
+                None
+            },
             key_classes,
             reporting: focus == Focus::Links || self.rng.chance(1, 4),
         }
@@ -394,6 +412,8 @@ impl<'a> Gen<'a> {
             Focus::Protocol => [130, 110, 100, 70, 40, 25, 160, 40, 15, 25, 10, 6, 6],
             Focus::Supply => [80, 30, 50, 100, 8, 30, 260, 10, 30, 3, 0, 0, 0],
             Focus::Links => [170, 100, 130, 30, 60, 90, 120, 50, 5, 25, 50, 3, 0],
+            // no stalled readers or lanes, no failing lanes: every party can always make progress
+            Focus::Inactivity => [110, 70, 90, 0, 25, 25, 190, 20, 0, 0, 160, 0, 0],
         };
         for _ in 0..len {
             let r = self.rng.usize_below(n);
@@ -475,6 +495,11 @@ impl<'a> Gen<'a> {
                     let how = *self.rng.pick(&[FailHow::CorruptTag, FailHow::CorruptTag, FailHow::Truncated, FailHow::CloseWriter]);
                     steps.push(Step::Lane(l, LaneCtl::Fail(how)));
                 }
+                10 if focus == Focus::Inactivity => {
+                    // gaps just below, at and above the timeout (and sums of short gaps that cross it)
+                    let t = cfg.inactive_ms.unwrap_or(10);
+                    steps.push(Step::Advance(*self.rng.pick(&[1, 1, 2, t / 3, t / 3, t / 2, t / 2, t - 1, t - 1, t, t + 1, 2 * t])));
+                }
                 10 => {
                     steps.push(Step::Advance(if cfg.inactive_ms.is_some() { *self.rng.pick(&[3u64, 10, 30, 60]) } else { *self.rng.pick(&[1u64, 3, 10, 30]) }));
                     if cfg.prune_ms.is_some() && self.rng.chance(2, 3) {
@@ -512,6 +537,9 @@ impl<'a> Gen<'a> {
                 75..=89 => steps.push(Step::Run(12)),
                 _ => steps.push(Step::Quiesce),
             }
+        }
+        if focus == Focus::Inactivity && !matches!(steps.last(), Some(Step::AgentReturn(_)) | Some(Step::StopAgent)) {
+            steps.push(Step::FinalIdle(5 * cfg.inactive_ms.unwrap_or(10) + 5));
         }
         steps
     }
